@@ -1,5 +1,6 @@
 #!/venv/bin/python
 """Regenerates /verif/MANIFEST.json from the property modules under harness/props (single source of truth).
+Only the ids listed in harness/claimed.txt (checks the coordinator has run green on the unchanged tree) are claimed.
 A property with no module is listed under not_applicable with the reason from NOT_BUILT."""
 import importlib
 import json
@@ -21,7 +22,8 @@ def main():
     for p in props:
         pid = p["id"]
         path = os.path.join(HERE, "props", pid.lower() + ".py")
-        if not os.path.exists(path):
+        claimed = set(open(os.path.join(HERE, "claimed.txt")).read().split())
+        if not os.path.exists(path) or pid not in claimed:
             na.append(dict(property_id=pid, reason=NOT_BUILT.get(pid, "model, theorems and correspondence for this property are not built yet; no other technique is substituted")))
             continue
         mod = importlib.import_module("props." + pid.lower())
